@@ -4,6 +4,8 @@ import (
 	"bytes"
 	"encoding/json"
 	"fmt"
+	"hash/fnv"
+	"math"
 	"reflect"
 
 	"github.com/shiwano/errdef"
@@ -38,6 +40,11 @@ func init() {
 			// corpus: case variants of a custom key's name
 			out = append(out, runC12(c12Desc{Case: UCase{Cfg: UCfg{Defs: []UDef{{Kind: "k1"}}, Reg: []int{0}, Custom: []int{2}},
 				Doc: &UDoc{Msg: "m", Kind: "k1", Fields: map[string]int{"n": 7, "N": 12}}}})...)
+			// corpus: K9 - a float32 key and the float64 value MaxFloat32, strict and lenient
+			for _, strict := range []bool{true, false} {
+				out = append(out, runC12(c12Desc{Case: UCase{Cfg: UCfg{Defs: []UDef{{Kind: "k1", Keys: []int{13}}}, Reg: []int{0}, Strict: strict},
+					Doc: &UDoc{Msg: "m", Kind: "k1", Fields: map[string]int{"f32": umValueIndex("fmaxf32")}}}})...)
+			}
 			for i := 0; i < n; i++ {
 				c := UCase{Cfg: genUCfg(r), Doc: genUDoc(r, 1+i*3/n)}
 				if len(c.Cfg.Reg) > 0 {
@@ -128,8 +135,10 @@ func runC12(d c12Desc) []Case {
 		}()
 	}
 	native := docNative(d.Case.Doc)
+	redec := redecodeSamples(d)
 	wrap := func(c Case, marshals, fix bool, lib string) Case {
-		c.Coq = fmt.Sprintf("{| c_um := %s; c_native := %s; c_marshals := %s; c_fix := %s; c_lib := %s |}", c.Coq, cBool(native), cBool(marshals), cBool(fix), lib)
+		c.Coq = fmt.Sprintf("{| c_um := %s; c_native := %s; c_marshals := %s; c_fix := %s; c_lib := %s; c_redec := %s |}", c.Coq, cBool(native), cBool(marshals), cBool(fix), lib, redec)
+		redec = "[]" // once per description
 		c.Desc = mustJSON(c12Desc{Case: d.Case, Lib: d.Lib})
 		return c
 	}
@@ -142,6 +151,9 @@ func runC12(d c12Desc) []Case {
 	if d.Lib && d.Case.Cfg.Default != nil {
 		first.Tags = append(first.Tags, "default-resolver-kindless-cause")
 	}
+	if docHasValue(d.Case.Doc, "fmaxf32") || docHasValue(d.Case.Doc, "f-maxf32") {
+		first.Tags = append(first.Tags, "float32-maxfloat32-roundtrip")
+	}
 	out := []Case{first}
 	if second != nil {
 		s := wrap(*second, true, true, "None")
@@ -149,6 +161,83 @@ func runC12(d c12Desc) []Case {
 		out = append(out, s)
 	}
 	return out
+}
+
+func umValueIndex(name string) int {
+	for i, v := range umValues {
+		if v.Name == name {
+			return i
+		}
+	}
+	panic("no such umValue " + name)
+}
+
+func docHasValue(d *UDoc, name string) bool {
+	if d == nil {
+		return false
+	}
+	for _, vi := range d.Fields {
+		if umValues[vi].Name == name {
+			return true
+		}
+	}
+	for _, c := range d.Causes {
+		if docHasValue(c, name) {
+			return true
+		}
+	}
+	return false
+}
+
+// redecodeSamples: typed scalar values pushed through the JSON step of the real stdlib
+// (json.Marshal, then decoding into `any` as jsonToDecodedData does): the observations that
+// validate Model/JsonVal.redecode and the strconv contract assumed for float32.
+// The sample is a function of the description (boundaries first, then values derived from it).
+func redecodeSamples(d c12Desc) string {
+	h := fnv.New64a()
+	h.Write([]byte(mustJSON(d)))
+	r := NewRng(int64(h.Sum64() >> 1))
+	var vals []any
+	switch r.Intn(4) {
+	case 0:
+		vals = append(vals, float32(math.MaxFloat32), float32(-math.MaxFloat32), float32(math.SmallestNonzeroFloat32), float32(0.1), float32(16777216), float32(1)/3, float32(math.Inf(1)), float32(math.NaN()))
+	case 1:
+		vals = append(vals, int64(math.MaxInt64), int64(math.MinInt64), uint64(math.MaxUint64), int64(1<<53+1), uint64(1<<63), int8(-128), uint8(255), int64(-(1<<53))-1)
+	case 2:
+		vals = append(vals, 0.1, math.Copysign(0, -1), math.MaxFloat64, 5e-324, math.Inf(-1), math.NaN(), 1e21, 123456789.125)
+	default:
+		vals = append(vals, true, false, "", "a b", "q\"uote", "\u00e9\n")
+	}
+	for i := 0; i < 6; i++ {
+		switch r.Intn(4) {
+		case 0:
+			vals = append(vals, math.Float32frombits(uint32(r.U64())))
+		case 1:
+			vals = append(vals, int64(r.U64()))
+		case 2:
+			vals = append(vals, r.U64())
+		default:
+			vals = append(vals, math.Float64frombits(r.U64()))
+		}
+	}
+	var out []string
+	for _, v := range vals {
+		sv := svalCoq(reflect.ValueOf(v))
+		b, err := json.Marshal(v)
+		if err != nil {
+			out = append(out, fmt.Sprintf("(%s, None)", sv))
+			continue
+		}
+		var back any
+		if json.Unmarshal(b, &back) != nil || back == nil {
+			out = append(out, fmt.Sprintf("(%s, Some DNil)", sv))
+			continue
+		}
+		bt := reflect.TypeOf(back)
+		k, _ := skindCoq(bt.Kind())
+		out = append(out, fmt.Sprintf("(%s, Some (DS {| s_id := %s; s_kind := %s |} %s))", sv, cN(typeID(bt)), k, svalCoq(reflect.ValueOf(back))))
+	}
+	return cList(out)
 }
 
 func hasEmptyKindlessCause(d *UDoc) bool {
